@@ -401,7 +401,7 @@ def check_property(prop, tier='quick', seed=0, meta=None, only_unit=None, only_t
             log('  %-28s %-34s %4d obligations, %d not SUCCESS, %.1fs [%s]' % (u.name, t.id, len(ob), len(nf), ob[0].secs, ob[0].backend))
     # 2. verdict
     known = [k for k in load_known().get('findings', []) if k.get('property') == prop]
-    violations = []; known_hits = []; n_obl = 0; n_dis = 0; samples = []; bounded = []
+    violations = []; known_hits = []; n_obl = 0; n_dis = 0; samples = []; bounded = []; n_bobl = 0; n_bdis = 0
     per_backend = {}
     for (uname, tid), ob in sorted(results.items()):
         u = [x for x in units if x.name == uname][0]; t = [x for x in u.targets if x.id == tid][0]
@@ -413,12 +413,14 @@ def check_property(prop, tier='quick', seed=0, meta=None, only_unit=None, only_t
             if CANARY in o.desc: continue
             if t.must_fail:
                 continue
-            n_obl += 1
+            isb = t.strength != 'U'
+            if isb: n_bobl += 1
+            else: n_obl += 1
             per_backend.setdefault(o.backend, [0, 0.0])
             per_backend[o.backend][0] += 1
             if o.status == 'SUCCESS':
-                n_dis += 1
-                if t.strength != 'U': bounded.append(o)
+                if isb: n_bdis += 1; bounded.append(o)
+                else: n_dis += 1
             elif o.status == 'FAILURE':
                 kf = match_known(known, uname, tid, o)
                 if kf is not None: known_hits.append((kf, o))
@@ -449,11 +451,12 @@ def check_property(prop, tier='quick', seed=0, meta=None, only_unit=None, only_t
     elif undecided:
         rc = 2
     wall = time.time() - t_start
+    meta = dict(meta); meta['bounded_counts'] = (n_bobl, n_bdis)
     write_evidence(prop, tier, seed, units, results, n_obl, n_dis, samples, bounded, undecided, violations, known_hits, checker_cmds,
                    per_backend, wall, meta)
     for uerr in undecided[:12]: log('UNDECIDED: ' + uerr[:2000])
     if len(undecided) > 12: log('UNDECIDED: ... and %d more (see evidence file)' % (len(undecided) - 12))
-    log('%s: %d obligations, %d discharged, %d violations, %d known, %d undecided, %.1fs -> exit %d' % (prop, n_obl, n_dis, len(violations), len(known_hits), len(undecided), wall, rc))
+    log('%s: %d obligations (unbounded), %d discharged; %d bounded stand-in obligations, %d passed; %d violations, %d known, %d undecided, %.1fs -> exit %d' % (prop, n_obl, n_dis, n_bobl, n_bdis, len(violations), len(known_hits), len(undecided), wall, rc))
     if not keep and rc == 0:
         shutil.rmtree(workdir, ignore_errors=True)
     return rc
@@ -520,6 +523,8 @@ def write_evidence(prop, tier, seed, units, results, n_obl, n_dis, samples, boun
         extraction[u.name] = u.extract_info
     all_u = all(t.strength == 'U' for u in units for t in u.targets if (u.name, t.id) in results)
     level = meta.get('level') or ('proof' if all_u else 'other')
+    if level == 'proof' and n_obl == 0: level = 'other'
+    nb, nbd = meta.get('bounded_counts', (0, 0))
     bo = {}
     for o in bounded: bo.setdefault('%s/%s' % (o.unit, o.target), o.strength)
     cov = {
@@ -529,6 +534,7 @@ def write_evidence(prop, tier, seed, units, results, n_obl, n_dis, samples, boun
         'functions_under_contract': fu,
         'per_backend': {k: {'obligations': v[0], 'solver_s': round(v[1], 1)} for k, v in per_backend.items()},
         'bounded_obligations': [{'target': k, 'bound': v, 'unwinding_assertions': True} for k, v in sorted(bo.items())],
+        'bounded_stand_in': {'obligations': nb, 'passed': nbd, 'note': 'bounded targets are listed separately and are NOT included in obligations/discharged'},
         'assume_scan': scan_assumptions(units),
         'not_covered_clauses': not_cov,
         'samples': samples or [{'note': 'no obligation was produced'}],
